@@ -62,14 +62,27 @@ def default(obj: Any, default_: object = "", *, allow_false: bool = False) -> An
 
 @with_environment
 @liquid_filter
-@functools.lru_cache(maxsize=10)
-def date(  # noqa: PLR0912 PLR0911
+def date(
     dat: Union[datetime.datetime, str, int],
     fmt: str,
     *,
     environment: Environment,
 ) -> str:
     """Return a string representation of _dat_ using format string _fmt_."""
+    if isinstance(dat, (datetime.datetime, datetime.date)):
+        # Equal datetimes in different time zones format differently, so
+        # they must not share a cache entry.
+        return _date.__wrapped__(dat, fmt, environment=environment)
+    return _date(dat, fmt, environment=environment)
+
+
+@functools.lru_cache(maxsize=10, typed=True)
+def _date(  # noqa: PLR0912 PLR0911
+    dat: Union[datetime.datetime, str, int],
+    fmt: str,
+    *,
+    environment: Environment,
+) -> str:
     if is_undefined(dat):
         return ""
 
